@@ -37,6 +37,9 @@ def run(check, pool, Task):
     wrappers.run_arrays(check, pool, Task, 'C13', ('bounds', 'total_bounds'), derivs=derivs, dtypes=('float64',), flags=True)
     wrappers.run_arrays(check, pool, Task, 'C13', ('bounds', 'total_bounds'), derivs=['slice[1:]'], dtypes=wrappers.DTYPES_ALL[1:] if thorough else ('int16', 'float32'))
 
+    from . import glue
+    glue.run(check, pool, Task, ('polygon', 'point'))
+
 
 def replay(path):
     import json
